@@ -25,7 +25,7 @@ LEVEL = "exploration"
 RUNS = {"quick": 40000, "thorough": 1000000}
 WALL = {"quick": 240, "thorough": 1500}
 PARTITIONS = [{"name": "default", "env": {}}]
-FAULT_KINDS = build.LAYOUT_FAULTS + ["keep_missed_off", "reorder", "batch_split", "empty_batch", "nan_entry", "merge_partials", "rescale", "invalidate",
+FAULT_KINDS = build.LAYOUT_FAULTS + ["block_input:C", "block_input:F", "keep_missed_off", "reorder", "batch_split", "empty_batch", "nan_entry", "merge_partials", "rescale", "invalidate",
                "copy", "duplicate_values"]
 RULE = ("one run = 1-4 one-dimensional accumulators over consecutive bins fed in-range values (<= 30 entries, "
         "weights none/int/dyadic/float) by construction, fill and fill_n in seeded chunkings, combined with +, += and "
@@ -108,7 +108,10 @@ def generate(rng, seed, part):
                 if bulk:
                     m = min(len(rest) - j, rng.choice([50, 2048, 3000, len(rest)]))
                 op = {"op": "fill_n", "n": nodes, "idx": rest[j:j + m], "cont": rng.choice(conts),
-                      "mem": rng.choice(build.MEM_MODES)}
+                      "mem": rng.choice(build.MEM_MODES),
+                      # a 1-D histogram takes input of any shape: a 2-D block (in either memory order) with a
+                      # same-shaped block of weights, nothing to drop
+                      "block": rng.choice([None, None, "C", "F", "F"])}
                 if rng.random() < 0.2:
                     op["nan_at"] = rng.randrange(m + 1)
                 ops.append(op)
@@ -322,7 +325,15 @@ def execute(plan, ctx):
                 batch = batch.astype(np.float32 if cfg["vtype"] == "f32" else np.float16)
                 ctx.probe("narrow_float_values")
             held = []
-            if cfg.get("vtype", "f64") == "f64":
+            if op.get("block") and op.get("nan_at") is None and len(vals) >= 4 and len(vals) % 2 == 0 \
+                    and cfg.get("vtype", "f64") == "f64":
+                blk = np.asarray(vals, dtype=float).reshape(2, -1)
+                batch = np.asfortranarray(blk) if op["block"] == "F" else blk
+                if "weights" in kw:
+                    kw["weights"] = warr(ws).reshape(2, -1)
+                kw["dropna"] = False
+                ctx.fault("block_input:" + op["block"])
+            elif cfg.get("vtype", "f64") == "f64":
                 (batch, w_), held = build.hand_over(ctx, op.get("mem"), batch, kw.get("weights"))
                 if "weights" in kw:
                     kw["weights"] = w_
